@@ -689,8 +689,8 @@ def one(ctx, item):
 def run(ctx):
     import check
     q = ctx.quick
-    items = list(range(200 if q else 1800)) + [f"disc-{i}" for i in range(32 if q else 160)] + \
-        [f'restart-{i}' for i in range(48 if q else 400)] + [f'fast-{i}' for i in range(48 if q else 400)]
+    items = list(range(200 if q else 1400)) + [f"disc-{i}" for i in range(32 if q else 128)] + \
+        [f'restart-{i}' for i in range(48 if q else 300)] + [f"fast-{i}" for i in range(48 if q else 300)]
     ctx.rng.shuffle(items)
     check.pmap(ctx, 'props.c10', 'one', items, case_timeout=300 if q else 1200)
 
